@@ -25,7 +25,10 @@ pub fn dispatch(prop: &str, ctx: &mut RunCtx<'_>) -> Option<Violation> {
     match prop {
         "C01" => crate::c01::run(ctx),
         "C04" => crate::c04::run(ctx),
+        "C05" => crate::c05::run(ctx),
         "C11" => crate::c11::run(ctx),
+        "C14" => crate::frontend::run_c14(ctx),
+        "C17" => crate::c17::run(ctx),
         "C20" => crate::c20::run(ctx),
         "C19" => crate::c04::run_uper(ctx, true),
         other => Some(Violation { signature: format!("HARNESS/unknown-property/{other}"), detail: String::new() }),
